@@ -185,6 +185,13 @@ class Scalar:
     def sqrt(self):
         return Scalar.atom(("sqrt", self.key()))
 
+    def recip(self):
+        """1/self for a single monomial (negative exponents); None otherwise"""
+        if len(self.t) != 1:
+            return None
+        (mono, c), = self.t.items()
+        return Scalar({tuple((a, -e) for a, e in mono): Fraction(1) / c})
+
     def key(self):
         return tuple(sorted(self.t.items(), key=repr))
 
